@@ -151,6 +151,57 @@ theorem serFields_noObj (cs : Bool) (capBits : Nat) : ∀ (fs : List Field) (vs 
     | oobBuffer a b => simp [Out.isOobObject]
     | oobObject a b => rw [hr] at h1; simp [Out.isOobObject] at h1
 
+theorem write_true_cases (capBits off len : Nat) :
+    write true capBits off len = none ∨ write true capBits off len = some (.err .bufferTooSmall) := by
+  simp only [write, if_true]; split <;> simp
+
+/-- a field all of whose writes are checked never leaves the buffer or the object, WHATEVER the buffer size -/
+theorem serField_checked (cs : Bool) (capBits off : Nat) (f : Field) (v : FVal) (hc : okCmp cs f = true)
+    (ha : allChecked f = true) : (serField cs capBits off f v).isOob = false := by
+  cases f with
+  | prim w checked =>
+    simp only [allChecked] at ha
+    subst ha
+    cases v with
+    | prim =>
+      simp only [serField]
+      rcases write_true_cases capBits off w with e | e
+      · rw [e]; rfl
+      · rw [e]; rfl
+    | count c => simp [serField, Out.isOob]
+  | varr lp eb cap sl lpc ec =>
+    simp only [allChecked, Bool.and_eq_true] at ha
+    obtain ⟨h1, h2⟩ := ha
+    subst h1; subst h2
+    cases v with
+    | prim => simp [serField, Out.isOob]
+    | count c =>
+      simp only [okCmp, decide_eq_true_eq] at hc
+      simp only [serField]
+      by_cases h1 : c > cmpBound cs cap sl
+      · simp [h1, Out.isOob]
+      · simp only [h1, if_false]
+        rcases write_true_cases capBits off lp with e | e
+        · rw [e]
+          simp only [if_true]
+          exact (elemLoop_safe capBits eb sl c 0 (off + lp) (by omega)).notOob
+        · rw [e]; rfl
+
+theorem serFields_checked (cs : Bool) (capBits : Nat) : ∀ (fs : List Field) (vs : List FVal) (off : Nat),
+    (∀ f ∈ fs, okCmp cs f = true ∧ allChecked f = true) → (serFields cs capBits off fs vs).isOob = false
+  | [], [], off, _ => by simp [serFields, Out.isOob]
+  | [], _ :: _, off, _ => by simp [serFields, Out.isOob]
+  | _ :: _, [], off, _ => by simp [serFields, Out.isOob]
+  | f :: fs, v :: vs, off, hc => by
+    have h1 := serField_checked cs capBits off f v (hc f (by simp)).1 (hc f (by simp)).2
+    simp only [serFields]
+    cases hr : serField cs capBits off f v with
+    | ok off' => exact serFields_checked cs capBits fs vs off' (fun g hg => hc g (by simp [hg]))
+    | err e => simp [Out.isOob]
+    | shape => simp [Out.isOob]
+    | oobBuffer a b => rw [hr] at h1; simp [Out.isOob] at h1
+    | oobObject a b => rw [hr] at h1; simp [Out.isOob] at h1
+
 theorem nth?_mem {α : Type} : ∀ {l : List α} {k : Nat} {x : α}, nth? l k = some x → x ∈ l
   | [], _, _, h => by simp [nth?] at h
   | y :: _, 0, x, h => by simp [nth?] at h; simp [h]
